@@ -44,7 +44,7 @@ RULE = ('Hypothesis: CamxSpec (uamiv[AVERAGE EMISSIONS AIRQUALITY INSTANT] '
         'derived IOAPI attributes (TSTEP, SDATE...) are not compared.  '
         'Non-trivial: (>1 variable and nz>1 and steps>1) or a '
         'day/year/century/leap roll-over inside the file or a denormal / '
-        '-0.0 payload.  Distinct by sha1 of the case spec.' + '  Domain by construction: lateral_boundary nx, ny >= 2 (an edge needs its two corner cells), EMISSIONS nz = 1, AIRQUALITY one step, steps of whole hours (lateral_boundary 1 h), every instant incl. the last end time inside 1970-2069, species names not DATE/TFLAG/ETFLAG, a 3-variable cloud_rain file whose size is also a whole number of 5-variable steps is not generated (the format stores no variable count), old-style landuse with at most one optional field.  The reader route is not used for input classes in which the reader is known (C09 findings) not to present the reference file: single-step met files, old-style landuse, 1x1 wind, files straddling 1999/2000; these use the array route.' + '  Round-5 extensions: route pnc creates the data variables in a drawn permutation; route refread opens 0/1 bystander files of the same format and another shape (kept alive or closed) between reading f and writing it; the reader route is used for every input class except 1x1 wind.')
+        '-0.0 payload.  Distinct by sha1 of the case spec.' + '  Domain by construction: lateral_boundary nx, ny >= 2 (an edge needs its two corner cells), EMISSIONS nz = 1, AIRQUALITY one step, steps of whole hours (lateral_boundary 1 h), every instant incl. the last end time inside 1970-2069, species names not DATE/TFLAG/ETFLAG, a 3-variable cloud_rain file whose size is also a whole number of 5-variable steps is not generated (the format stores no variable count), old-style landuse with at most one optional field.  The reader route is not used for input classes in which the reader is known (C09 findings) not to present the reference file: single-step met files, old-style landuse, 1x1 wind, files straddling 1999/2000; these use the array route.' + '  The write must leave its source unchanged (snapshot of dimensions, variable data, TFLAG/ETFLAG, header attributes before and after) and writing the same in-memory object twice must give byte-identical files.  Free-text header fields (uamiv/lateral_boundary NOTE, cloud_rain descriptor) are drawn with leading, inner and trailing blanks, empty and full.' + '  Round-5 extensions: route pnc creates the data variables in a drawn permutation; route refread opens 0/1 bystander files of the same format and another shape (kept alive or closed) between reading f and writing it; the reader route is used for every input class except 1x1 wind.')
 ASSUMPTIONS = ['the in-memory files carry the metadata the writers read '
                '(TFLAG, VAR-LIST, TSTEP, CAMx header attributes, LSTAGGER, '
                'FILEDESC, _newstyle) as the library readers present them',
@@ -147,6 +147,36 @@ def first_diff(a, b):
         if a[i] != b[i]:
             return i
     return n
+
+
+def snap_diff(a, b):
+    """[(what, message)] where two snapshots of the same object differ"""
+    out = []
+    if a.dims != b.dims:
+        out.append(('dims', 'dimensions %r -> %r' % (dict(a.dims),
+                                                     dict(b.dims))))
+    if a.order != b.order or a.varlist != b.varlist:
+        out.append(('names', 'variables / VAR-LIST %r %r -> %r %r' % (
+            a.order, a.varlist, b.order, b.varlist)))
+    for k, (dims, arr) in a.vars.items():
+        if k not in b.vars:
+            continue
+        other = b.vars[k][1]
+        if arr.dtype != other.dtype or arr.shape != other.shape or \
+                arr.tobytes() != other.tobytes():
+            out.append(('data', 'variable %s changed' % k))
+            break
+    for nm in ('tflag', 'etflag'):
+        x, y = getattr(a, nm), getattr(b, nm)
+        if (x is None) != (y is None) or \
+                (x is not None and not np.array_equal(x, y)):
+            out.append((nm.upper(), '%s[:, 0] %s -> %s' % (
+                nm.upper(), None if x is None else np.asarray(x)[:, 0].tolist(),
+                None if y is None else np.asarray(y)[:, 0].tolist())))
+    if a.attrs != b.attrs:
+        out.append(('attrs', 'header attributes %r -> %r' % (
+            dict(a.attrs), dict(b.attrs))))
+    return out
 
 
 def compare(r, spec, m, F, G):
@@ -273,6 +303,30 @@ def check_case(spec):
             return r
         with open(p1, 'rb') as fi:
             b1 = fi.read()
+        # ---------------- the write left its source alone, and writing the
+        # same object again gives the same file (precondition of the
+        # idempotent-rewrite clause)
+        n0 = len(r.failures)
+        ok, F2 = guard(r, 'source-snapshot-after-write', C.snapshot_lib, f,
+                       spec, list(m.vars) if route != 'refread' else None)
+        gfail(r, spec, n0)
+        if ok:
+            for what, msg in snap_diff(F, F2):
+                fail(r, spec, 'source-mutated', 'writing changed the source '
+                     'object: ' + msg, what)
+        p1b = libstate.scratch_path('.1b.' + fmt)
+        paths.append(p1b)
+        n0 = len(r.failures)
+        ok, _ = guard(r, 'second-write-raises', C.write_lib, spec, f, p1b)
+        gfail(r, spec, n0)
+        if ok:
+            with open(p1b, 'rb') as fi:
+                b1b = fi.read()
+            if b1b != b1:
+                fail(r, spec, 'second-write-bytes', 'writing the same '
+                     'in-memory object twice gives %d and %d bytes; first '
+                     'difference at offset %d' % (len(b1), len(b1b),
+                                                  first_diff(b1, b1b)))
         # ---------------- g = read(write(f))
         n0 = len(r.failures)
         ok, g = guard(r, 'read-raises', C.open_lib, spec, p1, 'memmap')
